@@ -50,23 +50,29 @@ fn run_case(out: &mut Out, run: u64, c: &Case) {
     let pop: Vec<Individual<P>> = c.pe.iter().map(|t| problem.evaluated(*t)).collect();
     let mols: Vec<Molecule<P>> = pop.iter().zip(&c.ke).map(|(x, k)| Molecule::new(*k, x.clone())).collect();
     let reactants: Vec<Individual<P>> = match c.op.as_str() {
+        "init" => Vec::new(),
         "on_wall" | "decompose" => vec![pop[c.i - 1].clone()],
         _ => vec![pop[c.i - 1].clone(), pop[c.j - 1].clone()],
     };
     let products: Vec<Individual<P>> = match c.op.as_str() {
+        "init" => Vec::new(),
         "on_wall" | "synthesis" => vec![problem.evaluated(c.p1)],
         _ => vec![problem.evaluated(c.p1), problem.evaluated(c.p2)],
     };
     let before_total = total(&pop, &mols, c.buffer);
     let mut pops = Populations::<P>::new();
     pops.push(pop.clone());
-    pops.push(reactants);
-    pops.push(products);
+    if c.op != "init" {
+        pops.push(reactants);
+        pops.push(products);
+    }
     state.insert(pops);
     state.insert(Random::new(c.seed));
     state.insert(ChemicalReaction::<P>(mols.clone()));
     state.insert(EnergyBuffer(c.buffer));
     let comp: Box<dyn Component<P>> = match c.op.as_str() {
+        // the initialisation component executed on a state that already holds molecule records
+        "init" => mahf::components::misc::cro::ChemicalReactionInit::new(c.p1 as f64, 0.0),
         "on_wall" => OnWallIneffectiveCollisionUpdate::new(c.lr),
         "decompose" => DecompositionUpdate::new(),
         "intermolecular" => IntermolecularIneffectiveCollisionUpdate::new(),
@@ -84,6 +90,7 @@ fn run_case(out: &mut Out, run: u64, c: &Case) {
         rec.insert("nm".into(), json!(0));
         rec.insert("bf".into(), json!(0));
         rec.insert("kef".into(), json!(0));
+        rec.insert("ke2".into(), json!([]));
         rec.insert("h2".into(), json!(0));
         rec.insert("pred".into(), json!({"cons": 0, "nonneg": 0, "split": 0, "local": 0, "aligned": 0}));
     };
@@ -106,6 +113,19 @@ fn run_case(out: &mut Out, run: u64, c: &Case) {
             let cons = close(before_total, after_total);
             let nonneg = buffer2 >= 0.0 && mols2.iter().all(|m| m.kinetic_energy >= 0.0);
             // participants: reactant positions (0-based) before; products sit at i (and j, or at the end for decomposition)
+            if c.op == "init" {
+                let aligned = mols2.len() == pop2.len() && mols2.iter().zip(&pop2).all(|(m, x)| m.best == *x);
+                rec.insert("res".into(), json!(if accepted { "changed" } else { "unchanged" }));
+                rec.insert("pe2".into(), json!(pop2.iter().map(|x| x.objective().value() as i64).collect::<Vec<_>>()));
+                rec.insert("ke2".into(), json!(mols2.iter().map(|m| m.kinetic_energy as i64).collect::<Vec<_>>()));
+                rec.insert("nm".into(), json!(mols2.len()));
+                rec.insert("bf".into(), json!(buffer2 as i64));
+                rec.insert("kef".into(), json!(0));
+                rec.insert("h2".into(), json!(h2));
+                rec.insert("pred".into(), json!({"cons": 1, "nonneg": nonneg as i64, "split": 1, "local": same_pop as i64, "aligned": aligned as i64}));
+                out.emit(&Value::Object(rec));
+                return;
+            }
             let (bi, bj) = (c.i - 1, if c.j > 0 { Some(c.j - 1) } else { None });
             let local = if !accepted {
                 true
@@ -156,6 +176,7 @@ fn run_case(out: &mut Out, run: u64, c: &Case) {
             rec.insert("nm".into(), json!(mols2.len()));
             rec.insert("bf".into(), json!(bf));
             rec.insert("kef".into(), json!(kef));
+            rec.insert("ke2".into(), json!([]));
             rec.insert("h2".into(), json!(h2));
             rec.insert("pred".into(), json!({"cons": cons as i64, "nonneg": nonneg as i64, "split": split as i64, "local": local as i64,
                                              "aligned": aligned as i64}));
@@ -166,6 +187,9 @@ fn run_case(out: &mut Out, run: u64, c: &Case) {
 
 /// the reactant the component resolves by equality is the FIRST individual equal to the selected one
 fn canonical(pe: &[u32], i: usize, j: usize) -> bool {
+    if i == 0 {
+        return true; // (re-)initialisation: no reactant
+    }
     let first_i = pe.iter().position(|x| *x == pe[i - 1]).unwrap() + 1;
     if first_i != i {
         return false;
@@ -222,6 +246,12 @@ pub fn main(args: &Args) -> usize {
                 let pe: Vec<u32> = (0..size).map(|_| r.gen_range(0..=span)).collect();
                 let ke: Vec<f64> = (0..size).map(|_| if r.gen_bool(0.3) { 0.0 } else { r.gen_range(0..=maxe) as f64 }).collect();
                 let buffer = if r.gen_bool(0.3) { 0.0 } else { r.gen_range(0..=2 * maxe) as f64 };
+                if r.gen_range(0..12) == 0 {
+                    let k0 = r.gen_range(0..=maxe);
+                    let c = Case { pe, ke, buffer, op: "init".to_string(), i: 0, j: 0, p1: k0, p2: 0, seed: args.seed() ^ run, lr: 0.1 };
+                    run_case(&mut out, run, &c);
+                    continue;
+                }
                 let op = ["on_wall", "decompose", "intermolecular", "synthesis"][r.gen_range(0..if size >= 2 { 4 } else { 2 })];
                 let i = r.gen_range(1..=size);
                 let j = if op == "intermolecular" || op == "synthesis" {
